@@ -23,7 +23,8 @@ MC = {
     "C01": [mc("WM", "MC_WM_k4"), mc("WM", "MC_WM_k4_long", tiers=("thorough",)), mc("RSQ", "MC_RSQ_bs2_quick", "MC_RSQ_bs2_deep"), mc("RSQ", "MC_RSQ_bs4_quick", "MC_RSQ_bs4_deep")],
     "C02": [mc("HuffWM", "MC_HuffWM_k4_quick", "MC_HuffWM_k4"), mc("RSQ", "MC_RSQ_bs2_quick", "MC_RSQ_bs2_deep")],
     "C03": [mc("WM", "MC_WM_k2"), mc("HuffWM", "MC_HuffWM_k2_quick", "MC_HuffWM_k2"), mc("RSBin", "MC_RSBin_wide_quick", "MC_RSBin_wide_deep")],
-    "C04": [mc("RSQ", "MC_RSQ_bs2_quick", "MC_RSQ_bps4"), mc("RSBin", "MC_RSBin_narrow_quick", "MC_RSBin_narrow_deep"), mc("DArr", "MC_DArr_quick", "MC_DArr_deep"),
+    "C10": [mc("MC_Clauses", "MC_Clauses_quick", "MC_Clauses", workers=4)],
+    "C04": [mc("MC_Clauses", "MC_Clauses_quick", "MC_Clauses", workers=4), mc("RSQ", "MC_RSQ_bs2_quick", "MC_RSQ_bps4"), mc("RSBin", "MC_RSBin_narrow_quick", "MC_RSBin_narrow_deep"), mc("DArr", "MC_DArr_quick", "MC_DArr_deep"),
             mc("Pfs", "MC_Pfs_quick", "MC_Pfs"), mc("MC_BitVecLines", "MC_BitVecLines", "MC_BitVecLines_thorough")],
     "C05": [mc("RSQ", "MC_RSQ_bs2_quick", "MC_RSQ_bs2_deep"), mc("RSQ", "MC_RSQ_bs4_quick", "MC_RSQ_bs4_deep"), mc("RSQ", "MC_RSQ_bps4", tiers=("thorough",))],
     "C06": [mc("RSBin", "MC_RSBin_narrow_quick", "MC_RSBin_narrow_deep"), mc("RSBin", "MC_RSBin_wide_quick", "MC_RSBin_wide_deep")],
